@@ -98,12 +98,21 @@ def s_obligation(**kw):
     return deco
 
 
+def prop(cls, name):
+    """The function behind a property / cached_property / plain attribute of a class (robust to the code under test changing which it is)."""
+    for klass in getattr(cls, "__mro__", (cls,)):
+        if name in vars(klass):
+            d = vars(klass)[name]
+            return getattr(d, "fget", None) or getattr(d, "func", None) or getattr(d, "__func__", None) or d
+    return getattr(cls, name)
+
+
 def source_fingerprint(objs) -> list[dict]:
     """Qualified name + sha1 of the *current* source of each analysed function/class."""
     out = []
     for o in objs:
         try:
-            target = o.fget if isinstance(o, property) else o
+            target = o.fget if isinstance(o, property) else getattr(o, "func", o) if type(o).__name__ == "cached_property" else o
             src = inspect.getsource(target)
             fn = inspect.getsourcefile(target)
             name = getattr(target, "__qualname__", getattr(target, "__name__", repr(target)))
